@@ -27,7 +27,9 @@ def load_corpus():
 
 
 def coq_case(case, o):
+    """Returns (Coq expression, Terms table used to recode the implementation's strings)."""
     idx = {n: i for i, n in enumerate(o["names"])}
+    T = cm.Terms()
     regl = core.coq_list(["%d" % idx[n] for n in case["reg"] if n in idx])
     byname = {}
     acc = []
@@ -35,6 +37,7 @@ def coq_case(case, o):
     for _, v in acc:
         if "id" in v and v.get("name") is not None:
             byname[v["name"]] = v["id"]
+    tree = T.value(o["tree"])
     tbl = []
     for p, on, kind, k in case["actions"]:
         if p not in idx:
@@ -45,9 +48,15 @@ def coq_case(case, o):
             i = byname[on]
         else:
             continue
-        act = "AChild" if kind == "child" else "(AAtom %s)" % core.coq_str("i:%d" % (k if kind == "atom" else 0))
+        act = "AChild" if kind == "child" else "(AAtom %d)" % T.atom("i:%d" % (k if kind == "atom" else 0))
         tbl.append("(%d, %d, %s)" % (idx[p], i, act))
-    return "run_case %s %s %s %s" % (regl, core.coq_list(tbl), cm.coq_dcl(o["root_d"], o["root_match"]), cm.coq_value(o["tree"]))
+    root = T.dcl(o["root_d"], o["root_match"])
+    return "%srun_case %s %s %s %s" % (T.lets(), regl, core.coq_list(tbl), root, tree), T
+
+
+def impl_string(o, T):
+    procs = [e for e in o["events"] if e["k"] == "proc"]
+    return T.recode("|".join("%d(%s)" % (e["p"], e["snap"]) for e in procs) + "$" + o["final"])
 
 
 def classify(case, o):
@@ -56,7 +65,7 @@ def classify(case, o):
 
 def run(chk):
     chk.prove([load_tr.translate])
-    n = 900 if chk.thorough else 240
+    n = 600 if chk.thorough else 120
     cases = load_corpus()
     for i in range(n):
         cases.append(cm.gen_case(chk.rng.split(i), thorough=chk.thorough and i % 2 == 0))
@@ -69,7 +78,9 @@ def run(chk):
             res[id(c)] = x
     failures, disagreements = [], []
     evald = [c for c in cases if res[id(c)]["ok"]]
-    vals, errs = core.coq_eval("C13", IMPORTS, ["show_trace false", "show_trace true"] + [coq_case(c, res[id(c)]) for c in evald])
+    terms = [coq_case(c, res[id(c)]) for c in evald]
+    tabs = {id(c): t[1] for c, t in zip(evald, terms)}
+    vals, errs = core.coq_eval("C13", IMPORTS, ["show_trace false", "show_trace true"] + [t[0] for t in terms])
     if errs:
         disagreements.append({"case": "coq evaluation", "model": errs[:2]})
     trace_ok, trace_err = vals[0] or "", vals[1] or ""
@@ -84,7 +95,7 @@ def run(chk):
         nobj = len(set(e["id"] for e in procs if e["id"]))
         chk.count(json.dumps([c["grammars"], c["model"], c["reg"], c["actions"], c["user"]], sort_keys=True),
                   nontrivial=len(procs) >= 3)
-        chk.stat("load " + ("ok" if o["ok"] else "error:" + str(o["error_type"])))
+        chk.stat("load " + ("ok" if o["ok"] else "error:" + str(o["error_type"]) + (" (postponed forever)" if c.get("postpone_bad") else "")))
         chk.stat("objects processed %s" % ("0" if nobj == 0 else "1-3" if nobj <= 3 else "4-9" if nobj <= 9 else "10+"))
         if any(a[2] in ("atom", "falsy") for a in c["actions"]):
             chk.stat("with atom replacements")
@@ -111,7 +122,7 @@ def run(chk):
         # correspondence with the Coq model
         if o["ok"]:
             m = mv.get(id(c))
-            impl_s = "|".join("%d(%s)" % (e["p"], e["snap"]) for e in procs) + "$" + o["final"]
+            impl_s = impl_string(o, tabs[id(c)])
             if m is None or m != impl_s:
                 disagreements.append({"case": c, "impl": impl_s, "model": m})
         # property oracle on the implementation
@@ -148,9 +159,11 @@ def replay(rep):
     print("implementation: ok=%s error=%s %s" % (o["ok"], o["error_type"], o["error"]))
     print("calls: " + " ".join("%s(#%d)" % (e["pn"], e["id"]) for e in procs))
     if o["ok"]:
-        vals, errs = core.coq_eval("C13r", IMPORTS, [coq_case(case, o)])
+        expr, T = coq_case(case, o)
+        vals, errs = core.coq_eval("C13r", IMPORTS, [expr])
         print("model    : %s" % vals[0])
-        print("impl     : %s" % ("|".join("%d(%s)" % (e["p"], e["snap"]) for e in procs) + "$" + o["final"]))
+        print("impl     : %s" % impl_string(o, T))
+        print("atoms    : %s" % sorted((i, a) for a, i in T.atoms.items()))
     bad = cm.oracle(case, o, idx)
     print("property verdict: " + ("VIOLATED: " + "; ".join(bad) if bad else "holds"))
     return 1 if bad else 0
